@@ -17,8 +17,15 @@ Definition ycoord (y : yelem) : Z := fst (fst y).
 Definition ypay (y : yelem) : tree := snd (fst y).
 Definition yorig (y : yelem) : Z := snd y.
 
+(* f_isU: the format in the fiber's own RankAttrs; f_owner: None for a free-standing fiber,
+   Some u for the root fiber of a one-rank tensor whose rank has format "U" (u) or "C" *)
 Record fiber := { f_es : fib; f_d : Z; f_shape : option Z; f_active : option (Z * Z);
-                  f_isU : bool }.
+                  f_isU : bool; f_owner : option bool }.
+
+(* __iter__ (iterators.py:16-24): the owner rank's format if the fiber is owned, else the
+   format of its own RankAttrs *)
+Definition fmt_U (f : fiber) : bool :=
+  match f_owner f with Some u => u | None => f_isU f end.
 
 Definition zlen {A} (l : list A) : Z := Z.of_nat (length l).
 
@@ -38,9 +45,18 @@ Definition est_shape (es : fib) : Z :=
   | _ => last (map fst es) 0 + 1
   end.
 
-(* getShape(all_ranks=False) (2600-2659), unowned: attrs shape unless None *)
+(* getShape(all_ranks=False) (2600-2659).  Unowned: the attrs shape unless None.  Owned (the
+   tensor was built from this fiber without an explicit shape): Rank.append (rank.py:445-460)
+   copies the fiber's shape into the rank unless it is 0, Rank.getShape (210-226) returns it,
+   and a missing one is estimated *)
 Definition get_shape (f : fiber) : Z :=
-  match f_shape f with Some s => s | None => est_shape (f_es f) end.
+  match f_shape f with
+  | Some s => match f_owner f with
+              | Some _ => if s =? 0 then est_shape (f_es f) else s
+              | None => s
+              end
+  | None => est_shape (f_es f)
+  end.
 
 (* getActive (1487-1509): the stored range; else (0, shape) with a falsy shape estimated *)
 Definition get_active (f : fiber) : Z * Z :=
@@ -162,12 +178,12 @@ Definition iter_range_shape_ref (f : fiber) (lo hi step : Z) : list yelem * fib 
 (* ---- __iter__ (iterators.py:16-32): "C" -> iterOccupancy(start_pos), "U" ->
    iterActiveShape() and start_pos is ignored *)
 Definition iter_dispatch (f : fiber) (sp : option Z) : option (list yelem) :=
-  if f_isU f
+  if fmt_U f
   then Some (iter_range_shape f (fst (get_active f)) (snd (get_active f)) 1)
   else iter_occupancy f sp.
 
 Definition saved_dispatch (f : fiber) (sp : option Z) (ys : list yelem) : Z :=
-  if f_isU f then 0 else saved_after sp ys.
+  if fmt_U f then 0 else saved_after sp ys.
 
 (* ---- coiterRangeShape / coiterRangeShapeRef (362-448): one tuple of payloads per
    coordinate of the range; the lazy result is iterated through iterRange, whose emptiness
@@ -280,6 +296,26 @@ Definition project_saved (f : fiber) (k b : Z) (iv : option (Z * Z)) (sp : optio
   | None => 0
   end.
 
+(* ---- a window over a projection: project(...).iterRange(start, end) — iterRange (122-188) on the
+   *lazy* result: the same loop as the eager one, over the elements the generator produces *)
+Fixpoint lazy_range_loop (d : Z) (lo hi : option Z) (ys : list yelem) : list yelem :=
+  match ys with
+  | [] => []
+  | y :: ys' =>
+    if ge_hi hi (ycoord y) then []
+    else if in_lo lo (ycoord y) then
+      if is_empty d (ypay y) then lazy_range_loop d lo hi ys'
+      else y :: lazy_range_loop d lo hi ys'
+    else lazy_range_loop d lo hi ys'
+  end.
+
+Definition project_window (f : fiber) (k b : Z) (iv : option (Z * Z)) (lo hi : option Z)
+  : option (list yelem) :=
+  match proj_source f k b iv None with
+  | Some src => Some (lazy_range_loop (f_d f) lo hi (proj_loop k b iv src))
+  | None => None
+  end.
+
 (* ---- prune (fiber.py:1026-1078): trans_fn(i, c, p) over enumerate(self.__iter__(start_pos)) *)
 Fixpoint prune_loop (P : Z -> Z -> tree -> bool) (i : Z) (ys : list yelem) : list yelem :=
   match ys with
@@ -307,12 +343,97 @@ Definition prune_saved (f : fiber) (sp : option Z) : Z :=
   | None => 0
   end.
 
-(* ---- Fiber.fromLazy (fiber.py:544-564): f_out << lazy, f_ref <<= f_val for every offered
-   element.  Every offered element is non-empty w.r.t. the common default, so nothing is
-   removed again: the materialised fiber stores the offered (coordinate, payload) list
-   (sub-fibers are copied without their empty elements, so it is observed by its content).
-   (The populate machinery itself is C05's; this summary is tied by the correspondence.) *)
-Definition from_lazy (ys : list yelem) : fib := map (fun y => (ycoord y, ypay y)) ys.
+(* ---- Fiber.fromLazy (fiber.py:544-564):
+       f_out = cls(default=fiber.getDefault())
+       for c, (f_ref, f_val) in f_out << fiber:  f_ref <<= f_val
+   i.e. the populate generator (iterators.py __lshift__ 1052-1290; C05Populate.loop1 is the general
+   model of it on an owned tensor) run on a fresh, empty, unowned destination against the
+   elements the lazy fiber's own __iter__ yields, with the body "assign a copy". *)
+
+Fixpoint set_nth {A} (pos : nat) (x : A) (l : list A) : list A :=
+  match l, pos with
+  | [], _ => []
+  | _ :: l', O => x :: l'
+  | y :: l', S p => y :: set_nth p x l'
+  end.
+
+Fixpoint remove_nth {A} (i : nat) (l : list A) : list A :=
+  match l, i with
+  | [], _ => []
+  | _ :: l', O => l'
+  | x :: l', S i' => x :: remove_nth i' l'
+  end.
+
+(* Fiber.__ilshift__ (fiber.py:3016-3065) on an empty destination [acc]:
+     for c, p in other:  ref = self.getPayloadRef(c);  ref <<= p
+   `for c, p in other` is other's default iteration (compressed: the non-empty elements);
+   [cp] is the assignment of one payload (the recursion below) *)
+Definition ilshift_loop (cp : tree -> tree) (d : Z) : fib -> fib -> fib :=
+  fix go (l : fib) (acc : fib) : fib :=
+    match l with
+    | [] => acc
+    | (c, s) :: l' =>
+      if is_empty d s then go l' acc
+      else let acc1 := get_payload_ref d c acc in
+           go l' (set_nth (coord2pos c acc1) (c, cp s) acc1)
+    end.
+
+(* ref <<= p: Payload.__ilshift__ copies the value, Fiber.__ilshift__ the elements *)
+Fixpoint assign_copy (d : Z) (t : tree) : tree :=
+  match t with
+  | Leaf v => Leaf v
+  | Node es => Node (ilshift_loop (assign_copy d) d es [])
+  end.
+
+(* _coord2pos(c, start_pos=p) (fiber.py 5013-5023): first i >= p with coords[i] >= c, else len *)
+Definition coord2pos_from (p : nat) (c : Z) (es : fib) : nat := (p + coord2pos c (skipn p es))%nat.
+
+(* _createDefault of the destination: Fiber() once it stores fibers, else the default it was
+   given, which is the lazy fiber's (= the operand's) default [dt] *)
+Definition dflt_out (dt : tree) (es : fib) : tree :=
+  match es with
+  | (_, Node _) :: _ => Node []
+  | _ => dt
+  end.
+
+(* lshift_iterator.__iter__ (iterators.py 1108-1290), metrics off, with the body of fromLazy;
+   [es] = the destination, [a_pos] the running position *)
+Fixpoint from_lazy_loop (d : Z) (dt : tree) (b : fib) (es : fib) (a_pos : nat) : fib :=
+  match b with
+  | [] => es
+  | (c, bp) :: b' =>
+    (* 1180-1192: advance a_pos by bisect_left on the suffix, choose getPayload's start_pos *)
+    let a_pos1 := match es with [] => a_pos | _ :: _ => coord2pos_from a_pos c es end in
+    let gpp := match es with
+               | [] => None
+               | _ :: _ => match coord_exists c a_pos1 es with
+                           | Some _ => Some a_pos1
+                           | None => match a_pos1 with O => None | S p => Some p end
+                           end
+               end in
+    (* 1194: getPayload(b_coord, allocate=False, start_pos=gpp); None when absent *)
+    let idx := match gpp with None => coord2pos c es | Some p => coord2pos_from p c es end in
+    let existing := match coord_exists c idx es with Some _ => true | None => false end in
+    (* 1199-1203: _create_payload(b_coord, pos=a_pos) *)
+    let es1 := if existing then es else insert_at a_pos1 (c, dflt_out dt es) es in
+    let pos := if existing then idx else a_pos1 in
+    (* 1213 yield; body: f_ref <<= f_val *)
+    let zp' := assign_copy d bp in
+    let es2 := set_nth pos (c, zp') es1 in
+    (* 1216-1219: (maybe_remove and fiber and len == 0) or (leaf and == default) *)
+    let remove := match zp' with
+                  | Node sub => negb existing && Nat.eqb (length sub) O
+                  | Leaf v => v =? d
+                  end in
+    (* 1221-1236 *)
+    let es3 := if remove then remove_nth (coord2pos c es2) es2 else es2 in
+    let a_pos2 := if remove then a_pos1 else S a_pos1 in          (* 1236, 1261 *)
+    from_lazy_loop d dt b' es3 a_pos2
+  end.
+
+(* dt = the default payload of the lazy fiber (project/prune hand on the operand's) *)
+Definition from_lazy (d : Z) (dt : tree) (ys : list yelem) : fib :=
+  from_lazy_loop d dt (map (fun y => (ycoord y, ypay y)) ys) [] O.
 
 (* the predicate family the harness drives prune with:
    (a*i + b*c + e*val(p)) mod m < th, val = leaf value or number of stored elements *)
